@@ -84,6 +84,7 @@ type WSClient struct {
 	mu     sync.Mutex
 	frames []Frame
 	closed bool
+	closing bool
 	closeInfo string
 	done   chan struct{}
 	wmu    sync.Mutex
@@ -142,7 +143,12 @@ func (c *WSClient) readLoop() {
 		}
 		payload := make([]byte, h.Length)
 		if _, err := readFull(c.Conn, payload); err != nil {
-			c.add(Frame{Problem: "truncated frame: " + err.Error()})
+			c.mu.Lock()
+			local := c.closing
+			c.mu.Unlock()
+			if !local {
+				c.add(Frame{Problem: "truncated frame: " + err.Error()})
+			}
 			c.mu.Lock()
 			c.closed = true
 			c.closeInfo = err.Error()
@@ -240,7 +246,12 @@ func (c *WSClient) Closed() (bool, string) {
 }
 
 // Close closes the TCP connection abruptly.
-func (c *WSClient) Close() { c.Conn.Close() }
+func (c *WSClient) Close() {
+	c.mu.Lock()
+	c.closing = true
+	c.mu.Unlock()
+	c.Conn.Close()
+}
 
 // WaitClosed waits until the read loop ended.
 func (c *WSClient) WaitClosed(d time.Duration) bool {
